@@ -180,6 +180,9 @@ pub enum CallEvKind {
     Poll,
     /// `a`
     Abort,
+    /// `t`: drive the call to completion inside a tokio current-thread runtime (cooperative budget
+    /// active; every function must be in `imm`)
+    Tokio,
 }
 
 #[derive(Clone, Copy, Debug, PartialEq, Eq, Hash)]
@@ -212,6 +215,7 @@ pub fn fmt_call_ev(e: &CallEv) -> String {
         CallEvKind::Interrupt => "i".to_string(),
         CallEvKind::Poll => "p".to_string(),
         CallEvKind::Abort => "a".to_string(),
+        CallEvKind::Tokio => "t".to_string(),
     };
     if e.nosettle {
         format!("+{body}")
@@ -230,6 +234,7 @@ pub fn parse_call_ev(tok: &str) -> Result<CallEv, String> {
         "i" => CallEvKind::Interrupt,
         "p" => CallEvKind::Poll,
         "a" => CallEvKind::Abort,
+        "t" => CallEvKind::Tokio,
         _ => {
             let rest = body
                 .strip_prefix('c')
@@ -260,6 +265,9 @@ pub enum SEv {
     Interrupt,
     /// `x`
     DropStream,
+    /// `t<k>`: consume the whole stream inside a tokio current-thread runtime, holding at most `k`
+    /// FnRefs (must be the only event of the run)
+    Tokio(usize),
 }
 
 pub fn fmt_sev(e: &SEv) -> String {
@@ -268,6 +276,7 @@ pub fn fmt_sev(e: &SEv) -> String {
         SEv::Drop(i) => format!("d{i}"),
         SEv::Interrupt => "i".to_string(),
         SEv::DropStream => "x".to_string(),
+        SEv::Tokio(k) => format!("t{k}"),
     }
 }
 
@@ -276,11 +285,15 @@ pub fn parse_sev(tok: &str) -> Result<SEv, String> {
         "n" => Ok(SEv::Next),
         "i" => Ok(SEv::Interrupt),
         "x" => Ok(SEv::DropStream),
-        _ => tok
-            .strip_prefix('d')
-            .and_then(|n| n.parse::<usize>().ok())
-            .map(SEv::Drop)
-            .ok_or_else(|| format!("bad stream event `{tok}`")),
+        _ => {
+            if let Some(k) = tok.strip_prefix('t').and_then(|n| n.parse::<usize>().ok()) {
+                return Ok(SEv::Tokio(k));
+            }
+            tok.strip_prefix('d')
+                .and_then(|n| n.parse::<usize>().ok())
+                .map(SEv::Drop)
+                .ok_or_else(|| format!("bad stream event `{tok}`"))
+        }
     }
 }
 
